@@ -538,6 +538,8 @@ class ktensor:
             permutation, (tuple, list, np.ndarray)
         ):
             if len(permutation) == self.ncomponents:
+                # a tuple would otherwise be taken as a multi-dimensional index
+                permutation = np.asarray(permutation, dtype=int)
                 self.weights = self.weights[permutation]
                 for i in range(self.ndims):
                     self.factor_matrices[i] = self.factor_matrices[i][:, permutation]
